@@ -1,5 +1,5 @@
-"""C04 — receiver honesty (component level: UserRx + read half)."""
-from . import common, rxgen
+"""C04 — receiver honesty (component level: UserRx + read half; connection level: emitted ack numbers)."""
+from . import common, rxgen, vsock_common, c07
 
 TRUSTED_BASE = common.BASE_TRUSTED + [common.NO_AXIOMS]
 ASSUMPTIONS = [
@@ -49,5 +49,50 @@ def gen_around(rng, line, tier):
     return rxgen.gen(rng, "quick")[:300]
 
 
-COMPONENTS = [{"name": "rx", "keep": 2, "gen": rxgen.gen, "gen_around": gen_around, "nontrivial": nontrivial,
+def _vsock_gen(rng, tier):
+    # the shared connection generators plus the receive-side scenarios of C07 (out-of-order arrivals,
+    # duplicates, FIN before data, zero windows)
+    return vsock_common.gen(rng, tier) + c07.gen_own(rng.fork("rxside"), tier)
+
+
+# ----------------------------------------------------------------------------- known findings
+import checklib as L
+
+
+def _in_class(cls, case, impl):
+    t = case.split()
+    return L.run_lines(L.MODEL, ["vsock_pred %s %s | %s" % (cls, " ".join(t[1:]), impl)])[0] == "OK"
+
+
+D19_TEXT = ("in state SynAckSent an ST_FIN with ANY sequence number is accepted: last_consumed jumps to the FIN's "
+            "number and an ACK is emitted for sequence numbers that never arrived")
+
+
+def classify_known(kind, payload, kf):
+    if kind != "predicate" or "case" not in payload or not payload["case"].startswith("vsock "):
+        return None
+    op = {e.get("id") for e in kf.get("open", [])}
+    if "D19" in op and "c04_vsock_ack_ok" in payload.get("predicate_result", "") \
+            and _in_class("c04_d19_class", payload["case"], payload.get("impl", "")):
+        return "id=D19 %s; case `%s`" % (D19_TEXT, payload["case"][:300])
+    return None
+
+
+def replay_known(kf):
+    out = []
+    for e in kf.get("open", []):
+        if e.get("id") != "D19":
+            continue
+        for w in (e["witness"] if isinstance(e["witness"], list) else [e["witness"]]):
+            impl = L.run_lines(L.HARNESS, [w])[0]
+            p = vsock_common.pred_builder("c04_vsock_ack_ok")(w, impl)
+            if p and L.run_lines(L.MODEL, [p])[0] != "OK" and _in_class("c04_d19_class", w, impl):
+                out.append("KNOWN-FINDING: property=C04 id=D19 still reproduces on the real code: `%s`" % w)
+    return out
+
+
+_VS = vsock_common.component("c04_vsock_ack_ok", name="vsock_ack")
+_VS["gen"] = _vsock_gen
+
+COMPONENTS = [_VS, {"name": "rx", "keep": 2, "gen": rxgen.gen, "gen_around": gen_around, "nontrivial": nontrivial,
                "classify": classify, "pred": pred}]
